@@ -31,6 +31,19 @@ impl Name {
         forall|i: int| 0 <= i < self.nlabels() ==> (#[trigger] self.label_ends@[i]) as int - self.lstart(i) <= 63
     }
     pub open spec fn enc_len(&self) -> int { (self.label_ends@.len() + self.label_data@.len() + 1) as int }
+    // RFC 1035 3.1 / 4.1.4 wire form WITHOUT compression: label j is one length octet followed by its octets, at
+    // offset off + j + (octets of the labels before it); the name ends with the zero octet of the root
+    #[verifier::opaque]
+    pub open spec fn wire_label_ok(&self, b: Seq<u8>, off: int, j: int) -> bool {
+        let p = off + j + self.lstart(j);
+        let l = self.lend(j) - self.lstart(j);
+        0 <= p && p + 1 + l <= b.len() && b[p] as int == l && b.subrange(p + 1, p + 1 + l) == self.label(j)
+    }
+    pub open spec fn wire_at(&self, b: Seq<u8>, off: int) -> bool {
+        &&& 0 <= off && off + self.enc_len() <= b.len()
+        &&& forall|j: int| 0 <= j < self.nlabels() ==> #[trigger] self.wire_label_ok(b, off, j)
+        &&& b[off + self.nlabels() + self.label_data@.len()] == 0
+    }
 
     // model of #[derive(Default)] on Name (all fields default): verified, not assumed
     pub fn vp_default() -> (r: Self)
